@@ -342,17 +342,9 @@ func jxRunCytoscape(c *Ctx) *Violation {
 				e.Classes = jxStr(t, jxJSONStrings)
 			}
 			g.Elements = append(g.Elements, e)
-			// Element.Type: "returns the element type of the receiver"
-			ee := e
-			if v := c.Guard("Element/type", func() string { return fmt.Sprintf("%+v", ee) }, func() *Violation {
-				c.Oracle("element-type")
-				if got, err := ee.Type(); err != nil || got != want {
-					return viol("cytoscapejs/Element/type", "Element{Group:%q, Data:{ID:%q Source:%q Target:%q}}.Type() = %d, %v; want %d (NodeElement=%d, EdgeElement=%d); documented: returns the element type of the receiver", ee.Group, ee.Data.ID, ee.Data.Source, ee.Data.Target, got, err, want, cytoscapejs.NodeElement, cytoscapejs.EdgeElement)
-				}
-				return nil
-			}); v != nil && deferred == nil {
-				deferred = v // reported only when nothing else fails
-			}
+			// Element.Type() is not part of any codec round trip: it is not
+			// checked here (observation recorded in DESIGN.md section 6).
+			_ = want
 		}
 		g.Layout, g.Style = jxLayoutStyle(t)
 		if v := jxRun(c, jxCytoElem, g, nil); v != nil {
